@@ -209,6 +209,11 @@ def observe(spec):
         if l > 0:
             lv["parent"] = np.asarray(ga.parent(Pp))[:, :n].T.tolist()
         if not hp:
+            # round 7: _is_index_refined on all probes (in and out of range); on small levels the
+            # complete refined_indices() box in the order the implementation returns it
+            lv["is_refined"] = [bool(v) for v in np.asarray(ga._is_index_refined(Pp)).reshape(-1)[:n]]
+            if l < depth and int(np.prod(shape)) <= 800:
+                lv["refined_indices"] = np.asarray(ga.refined_indices()).reshape(nd, -1).T.astype(int).tolist()
             w = windows[l]
             lv["window"] = w
             lv["neighborhood"] = per_probe(ga.neighborhood(Pp, tuple(w)), nd, n).tolist()
@@ -303,6 +308,9 @@ def checks_for(obs):
         if "parent" in lv:
             add("parent", l, "chk_parent %s %s %s %s" % (g, L, P, zll(lv["parent"])))
         if not hp:
+            add("is-refined", l, "chk_is_refined %s %s %s %s" % (g, L, P, C.clist([C.cbool(v) for v in lv["is_refined"]])))
+            if "refined_indices" in lv:
+                add("refined-indices", l, "chk_refined_indices %s %s %s" % (g, L, zll(lv["refined_indices"])))
             add("neighborhood", l, "chk_neighborhood %s %s %s %s %s" % (g, L, zl(lv["window"]), P, zlll(lv["neighborhood"])))
             add("coord", l, "chk_coord %s %s (1 # 1000000000000)%%Q %s %s %s %s" % (g, L, zll(lv["dprobes"]), qll(lv["coord"]), P, zll(lv["coord_rt"])))
             add("coord2index", l, "chk_coord2index %s %s %s %s" % (g, L, qll(lv["coordq"]), zll(lv["coordq_idx"])))
